@@ -66,6 +66,9 @@ package ast_python
 //@     (*currentCodeFile).Imports[len((*currentCodeFile).Imports) - 1].Source == GetText(Child(ChildN(Child(ctx, "dotted_as_names"), "dotted_as_name", 0), "dotted_name")) &&
 //@     Extends((*currentCodeFile).Imports, old((*currentCodeFile).Imports), 1)
 //@ ensures (*currentCodeFile).DataStructures == old((*currentCodeFile).DataStructures) && (*currentCodeFile).Members == old((*currentCodeFile).Members)
+// C20 as stated: every imported module is listed under its own name, i.e. one entry per dotted name of the statement
+// (known finding: `import a, b` lists a single entry whose source is a; b becomes a usage name; pinned by Test_PythonImport)
+//@ ensures len((*currentCodeFile).Imports) == old(len((*currentCodeFile).Imports)) + Count(Child(ctx, "dotted_as_names"), "dotted_as_name")
 //@ loop 1 invariant (*codeImport).Source == GetText(Child(ChildN(Child(ctx, "dotted_as_names"), "dotted_as_name", 0), "dotted_name"))
 //@ loop 1 invariant *currentCodeFile == old(*currentCodeFile)
 
